@@ -2,40 +2,51 @@
    Model: theories/Query.v (internal/query/conditions.go after fixes/C03-*.patch, C14-*.patch).
    Proofs: QuerySort, QueryClean, QueryFlags, QueryHosts, QueryOps, QuerySet, QueryAtoms, QueryMain, QueryTotal. *)
 From Coq Require Import List NArith ZArith Bool Permutation.
-From Pk Require Import Query QuerySort QueryClean QueryFlags QueryHosts QueryOps QuerySet QueryAtoms QueryMain QueryTotal QuerySeq QueryThen QueryGroup.
+From Pk Require Import Query QuerySort QueryClean QueryFlags QueryHosts QueryOps QuerySet QueryAtoms QueryMain QueryTotal QuerySeq QueryThen QueryGroup QueryChain.
 Import ListNotations.
 
 (* (1) Meaning is preserved. For every valuation (one stream per sub-query name with ids, ports, byte counts >= 0,
    ftime <= ltime, tag states; an ARBITRARY payload oracle, matching started at any position) and every well-formed
-   expression of the class `class_ok`, the conditions returned by query.Parse evaluate to the meaning of the text as
-   written. `class_ok`: AND, OR, NOT, parentheses, sort/limit/group directives in any nesting over every filter kind
+   expression of the class `class3`, the conditions returned by query.Parse evaluate to the meaning of the text as
+   written. `class3`: AND, OR, NOT, parentheses, sort/limit/group directives in any nesting over every filter kind
    (value lists, ranges, open ranges, masks, variables, sub-queries), and THEN whose RIGHT operand is any expression of
-   the class again (AND / OR / NOT groups, negated sequences, further THENs) and whose LEFT operand is
-     - an OR group of sequences of plain / negated payload filters (steps may be OR groups, `data:` included), or
+   the class again (AND / OR / NOT groups, negated sequences, further THENs) and whose LEFT operand is a `chain`:
      - a THEN-free group with at most one payload end: AND / OR groups mixing one payload filter with non-payload
        filters, negated filters and negated AND/OR groups (`(cdata:x tag:a -cdata:y) then ..`, `(tag:a or cdata:x) then ..`,
-       `-(cdata:x or cdata:y) then ..`, `port:80 then ..`).
-   _partial: of the judged fragment (wf_seq) this leaves out THEN whose left operand is an AND group with SEVERAL payload
-   filters (`(cdata:x cdata:y) then cdata:z`, with the right side restricted by rule 3) and groups in the middle of a
-   chain (`cdata:w then (cdata:x -cdata:y) then cdata:z`); covered by the correspondence runs only (notes/C03.md). *)
+       `-(cdata:x or cdata:y) then ..`, `port:80 then ..`),
+     - a chain followed by such a group, groups in the middle of a chain included
+       (`cdata:w then (cdata:x -cdata:y) then cdata:z`, `-cdata:a then (cdata:b or -cdata:c) then ..`),
+     - an OR of chains.
+   _partial: of the judged fragment (wf_seq) this leaves out, in a non-last operand of THEN, AND groups with SEVERAL
+   payload filters (`(cdata:x cdata:y) then cdata:z`, with the right side restricted by rule 3) and a parenthesised
+   THEN on the right of a THEN (`(cdata:w then (cdata:x then cdata:y)) then cdata:z`); covered by the correspondence
+   runs only (notes/C03.md). *)
 Theorem c03_normalisation_preserves_meaning_partial :
   forall (v : valuation) (e : expr),
-    val_ok v -> ids_ok v -> class_ok e = true -> expr_wf e ->
+    val_ok v -> ids_ok v -> class3 e = true -> expr_wf e ->
     eval_set v (parse_conditions e) = sem v e.
-Proof. exact normalisation_preserves_meaning_class. Qed.
+Proof. exact normalisation_preserves_meaning_class3. Qed.
 
 (* (2) "matches nothing" (Parse returns the empty set) only for expressions no stream can satisfy. *)
 Theorem c03_impossible_only_if_unsatisfiable_partial :
   forall e : expr,
-    class_ok e = true -> expr_wf e -> parse_conditions e = [] ->
+    class3 e = true -> expr_wf e -> parse_conditions e = [] ->
     forall v : valuation, val_ok v -> ids_ok v -> sem v e = false.
-Proof. exact impossible_only_if_unsatisfiable_class. Qed.
+Proof. exact impossible_only_if_unsatisfiable_class3. Qed.
 
 (* the class of (1) and (2) contains every expression without THEN and lies inside the judged fragment *)
-Theorem c03_class_contains_then_free : forall e : expr, then_free e = true -> class_ok e = true.
-Proof. intros e H. apply tail_ok_class. apply then_free_tail_ok. exact H. Qed.
-Theorem c03_class_inside_judged_fragment : forall e : expr, class_ok e = true -> wf_seq true e = true.
-Proof. exact class_ok_judged. Qed.
+Theorem c03_class_contains_then_free : forall e : expr, then_free e = true -> class3 e = true.
+Proof. intros e H. apply class_ok_class3. apply tail_ok_class. apply then_free_tail_ok. exact H. Qed.
+Theorem c03_class_inside_judged_fragment : forall e : expr, class3 e = true -> wf_seq true e = true.
+Proof. exact class3_judged. Qed.
+
+(* chains: conjuncts and readings agree, the payload position they end at included; every conjunct of the normal
+   form keeps the invariant Conditions.then relies on (the filters it has matched so far form one sequence) *)
+Theorem c03_chain_sound :
+  forall a : expr, chain a = true -> expr_wf a ->
+    exists cs, norm a = Some cs /\ chain_ok a cs /\ ends_le1 a /\ strip a = Some a /\
+               wf_seq false a = true /\ multi_end a = false.
+Proof. exact chain_sound. Qed.
 
 (* groups: conjuncts and readings agree, the payload position they end at included *)
 Theorem c03_group_sound :
@@ -122,9 +133,9 @@ Proof. exact negated_group_in_sequence_refuted. Qed.
 
 (* the hypotheses are satisfiable *)
 Example c03_hypotheses_satisfiable :
-  (val_ok ex_val /\ ids_ok ex_val) /\ (class_ok ex_group = true /\ expr_wf ex_group).
-Proof. exact hypotheses_satisfiable_class. Qed.
-Example c03_example_value_then : eval_set ex_val (parse_conditions ex_group) = sem ex_val ex_group.
+  (val_ok ex_val /\ ids_ok ex_val) /\ (class3 ex_chain = true /\ expr_wf ex_chain).
+Proof. exact hypotheses_satisfiable_class3. Qed.
+Example c03_example_value_then : eval_set ex_val (parse_conditions ex_chain) = sem ex_val ex_chain.
 Proof. vm_compute. reflexivity. Qed.
 Example c03_example_value : eval_set ex_val (parse_conditions ex_tf) = sem ex_val ex_tf.
 Proof. vm_compute. reflexivity. Qed.
